@@ -122,3 +122,26 @@ fn c05_1c_speed_parameter_always_advances() {
     core::mem::forget(info);
     core::mem::forget(c);
 }
+
+// @ob id=C05.2b strength=bounded tier=quick bound="single thread" fn=clock/handle.rs::ClockHandle::{time,stop,ticking}
+// @req a started clock whose time has been published; the handle calls stop()
+// @ens before stop the handle reads exactly the published time; immediately after stop() (before any callback) it reads time zero, never the stale time
+#[kani::proof]
+#[kani::unwind(12)]
+fn c05_2b_handle_time_after_stop() {
+    let id = ClockId(any_small_key(2));
+    let (mut c, mut h) = Clock::new(Value::Fixed(ClockSpeed::TicksPerSecond(1.0)), id);
+    let ticks: u64 = kani::any();
+    let fr = any_f64_in(0.0, 0.9999999);
+    c.state = State::Started { ticks, fractional_position: fr };
+    c.on_start_processing();
+    let t = h.time();
+    assert!(t.ticks == ticks && t.fraction.to_bits() == fr.to_bits() && t.clock == id, "C05.2b: the handle reads the clock's published time");
+    h.stop();
+    let z = h.time();
+    assert!(z.ticks == 0 && z.fraction == 0.0, "C05.2b: a stopped clock reads zero at once");
+    c.on_start_processing();
+    assert!(c.state == State::NotStarted && !c.ticking && h.time().ticks == 0, "C05.2b: and is reset at the next callback");
+    kani::cover!(ticks > 0);
+    core::mem::forget(c); core::mem::forget(h);
+}
